@@ -61,6 +61,23 @@ def rows_of(res):
     return out
 
 
+def prior_calls(at, ext, cutoff, probes, c):
+    """process history: the same structure is extended / binned / searched with OTHER extension, cutoff and
+    tolerance values first (results discarded).  The measured calls below must not depend on it."""
+    try:
+        for e2 in (ext * 0.5, ext * 1.5):
+            MG.get_extended_system(at, e2)
+        for (e2, c2) in ((ext, cutoff * 0.5), (ext, cutoff * 1.75), (ext * 0.5, cutoff)):
+            cl2 = MG.get_cell_list(at.get_positions(), at.get_cell(), at.get_pbc(), e2, c2)
+            for q in probes[:2]:
+                cl2.get_neighbours_for_position(float(q[0]), float(q[1]), float(q[2]))
+            if c.get("tol") is not None and len(probes):
+                MG.get_matches(at, cl2, probes, c["probe_nums"], c["tol"] / G * 0.5)
+    except Exception as e:  # a failing prior call is reported as data, the measured call still runs
+        return type(e).__name__ + ": " + str(e)[:200]
+    return None
+
+
 def run_case(c):
     pos = np.array(c["pos"], dtype=float).reshape(-1, 3) / G
     cell = np.array(c["cell"], dtype=float) / G
@@ -70,6 +87,9 @@ def run_case(c):
     at = Atoms(numbers=c["nums"], positions=pos, cell=cell, pbc=pbc)
     kind = c["kind"]
     if kind in ("extend", "extend_deg"):
+        if c.get("history"):
+            for e2 in (ext * 0.5, ext * 1.5):
+                MG.get_extended_system(at, e2)
         es = MG.get_extended_system(at, ext)
         out["rows"] = [[hv(p), int(z), int(i), hv(f)] for p, z, i, f in
                        zip(np.asarray(es.positions).tolist(), np.asarray(es.atomic_numbers).tolist(),
@@ -81,6 +101,9 @@ def run_case(c):
         return out
     cutoff = c["cutoff"] / G
     out["N"], out["n_ext"] = copies_used(pos, cell, pbc, ext)
+    probes = np.array(c["probes"], dtype=float).reshape(-1, 3) / G
+    if c.get("history"):
+        out["prior_error"] = prior_calls(at, ext, cutoff, probes, c)
     cl = MG.get_cell_list(at.get_positions(), at.get_cell(), at.get_pbc(), ext, cutoff)
     probes = np.array(c["probes"], dtype=float).reshape(-1, 3) / G
     if kind == "query":
